@@ -227,63 +227,96 @@ def fmt_ops(ops):
 
 
 # ------------------------------------------------------------------ sequential stratum
-def sequential(ctx, nseq, probe):
+def sequential(ctx, eng, nseq, probe):
+    """Each sequence runs in one worker thread under the engine, so that an untimed read that
+    blocks for good (possible only after a defect lost data) is detected, judged by comparing
+    the real buffer with the reference at that quiescent point, and released."""
     rng = ctx.rng
     pool = bytes(range(256))
     for i in range(nseq):
         p = BufferedPipe()
         h = Hist()
-        state = (b"", False)
-        off = 0
+        box = dict(state=(b"", False), bad=None, prog=[])
         nops = rng.randint(2, 18)
-        prog = []
-        bad = None
-        for j in range(nops):
-            r = rng.random()
-            if r < 0.32 and off < 250:
-                n = rng.choice([1, 1, 2, 3, 7, rng.randint(1, 20)])
-                n = min(n, 256 - off)
-                op = ("feed", pool[off:off + n])
-                off += n
-            elif r < 0.70:
-                n = rng.choice([1, 1, 2, 3, 5, 8, 64, 4096])
-                empty_open = len(state[0]) == 0 and not state[1]
-                t = rng.choice([0.0, 0.0, 0.001, 0.003]) if empty_open else rng.choice([None, 0.0, 0.002, None])
-                op = ("read", n, t)
-            elif r < 0.78:
-                op = ("empty",)
-            elif r < 0.84:
-                op = ("close",)
-            elif r < 0.92:
-                op = ("len",)
-            else:
-                op = ("ready",)
-            prog.append(op)
-            h.do(p, "main", op)
-            rec = h.ops[-1]
-            ctx.count("sequential_steps_compared")
-            ns = Ref.step(state, rec)
-            if ns is None:
-                res = rec.get("res")
-                if rec["k"] == "read" and res == "timeout":
-                    what = "timeout raised with data buffered"
-                elif rec["k"] == "read" and res == b"":
-                    what = "read returned empty while not closed-and-drained"
-                elif rec["k"] == "read":
-                    what = "read result is not a non-empty prefix (<= nbytes) of the buffered bytes"
-                elif rec["k"] == "empty":
-                    what = "empty() result is not a prefix of the buffered bytes"
+        script = [(rng.random(), rng.choice([1, 1, 2, 3, 7, rng.randint(1, 20)]),
+                   rng.choice([1, 1, 2, 3, 5, 8, 64, 4096]), rng.choice([0.0, 0.0, 0.001, 0.003]),
+                   rng.choice([None, 0.0, 0.002, None])) for _ in range(nops)]
+
+        def body():
+            off = 0
+            for j in range(nops):
+                state = box["state"]
+                r, fn, rn, t_empty, t_data = script[j]
+                if r < 0.32 and off < 250:
+                    n = min(fn, 256 - off)
+                    op = ("feed", pool[off:off + n])
+                    off += n
+                elif r < 0.70:
+                    empty_open = len(state[0]) == 0 and not state[1]
+                    op = ("read", rn, t_empty if empty_open else t_data)
+                elif r < 0.78:
+                    op = ("empty",)
+                elif r < 0.84:
+                    op = ("close",)
+                elif r < 0.92:
+                    op = ("len",)
                 else:
-                    what = "%s disagrees with the buffered content" % rec["k"]
-                bad = (what, j)
-                break
-            state = ns
-        if bad is None:
+                    op = ("ready",)
+                box["prog"].append(op)
+                h.do(p, "main", op)
+                rec = h.ops[-1]
+                ctx.count("sequential_steps_compared")
+                ns = Ref.step(state, rec)
+                if ns is None:
+                    res = rec.get("res")
+                    if rec["k"] == "read" and res == "timeout":
+                        what = "timeout raised with data buffered"
+                    elif rec["k"] == "read" and res == b"":
+                        what = "read returned empty while not closed-and-drained"
+                    elif rec["k"] == "read":
+                        what = "read result is not a non-empty prefix (<= nbytes) of the buffered bytes"
+                    elif rec["k"] == "empty":
+                        what = "empty() result is not a prefix of the buffered bytes"
+                    else:
+                        what = "%s disagrees with the buffered content" % rec["k"]
+                    box["bad"] = (what, j)
+                    return
+                box["state"] = ns
+
+        hung = {}
+
+        def on_hang(run, roles):
+            hung["stacks"] = run.hung
+            hung["rest"] = bytes(p._buffer)
+            if p._lock.acquire(timeout=1.0):
+                p._closed = True
+                p._cv.notify_all()
+                p._lock.release()
+
+        run = eng.execute([("S", body)], sched.Plan(order=["S"]), on_hang=on_hang)
+        state = box["state"]
+        bad = box["bad"]
+        if hung:
+            ctx.count("sequential_ops_blocked_for_good")
+            if hung["rest"] != state[0]:
+                bad = ("final buffer content differs from the reference (loss/duplication/reorder)", len(h.ops))
+            else:
+                ctx.inconclusive("sequential op blocked although the buffer matches the reference: %r %r"
+                                 % (hung["stacks"], fmt_ops(h.ops)))
+                bad = None
+        elif run.leaked:
+            ctx.inconclusive("sequential worker never returned: %r" % (fmt_ops(h.ops),))
+            continue
+        elif bad is None:
             rest = bytes(p._buffer)
             ctx.count("sequential_steps_compared")
             if rest != state[0]:
                 bad = ("final buffer content differs from the reference (loss/duplication/reorder)", nops)
-        ctx.case(("seq", tuple(prog)), sample=dict(kind="sequential", ops=fmt_ops(h.ops)) if i == 0 else None,
+        for role, exc in run.excs.items():
+            ctx.violation("unexpected %s from a BufferedPipe operation" % type(exc).__name__,
+                          "an operation raised something other than PipeTimeout",
+                          dict(exc=repr(exc), ops=fmt_ops(h.ops)))
+        ctx.case(("seq", tuple(box["prog"])), sample=dict(kind="sequential", ops=fmt_ops(h.ops)) if i == 0 else None,
                  nontrivial=any(o["k"] in ("read", "empty") and o.get("res") not in (None, "timeout") for o in h.ops))
         judge_probe(ctx, probe, dict(kind="sequential", ops=fmt_ops(h.ops)))
         if bad is not None:
@@ -465,9 +498,9 @@ def run(ctx):
                     run_plan(ctx, eng, probe, w["workload"], sched.Plan.from_json(w["plan"]), stats)
                 ctx.require("histories_checked", 1)
                 return
-        sequential(ctx, ctx.pick(1500, 30000), probe)
-        t_core = ctx.pick(12, 150)
-        t_end = ctx.pick(24, 420)
+        sequential(ctx, eng, ctx.pick(1500, 30000), probe)
+        t_core = ctx.pick(9, 150)
+        t_end = ctx.pick(18, 420)
 
         def perturbed(wl, n):
             for _ in range(n):
